@@ -210,9 +210,9 @@ def KeyOK (k : Str) : Prop := '-' ∉ k ∧ k ≠ parserKey
 /-- md5 is injective on the identities of a history, hex digests contain no `-`; the decoders accept what the encoders
     wrote and reject every proper prefix of it (C05.truncate + "the decoder rejects unbalanced text"). -/
 structure Hyp (S : Sem) : Prop where
-  tree_inj : ∀ gp st al g t gp' st' al' g' t', S.treeIdent gp st al g t = S.treeIdent gp' st' al' g' t' →
-    gp = gp' ∧ st = st' ∧ al = al' ∧ g = g' ∧ t = t'
-  tree_nodash : ∀ gp st al g t, '-' ∉ S.treeIdent gp st al g t
+  tree_inj : ∀ gp st al g t ch gp' st' al' g' t' ch', S.treeIdent gp st al g t ch = S.treeIdent gp' st' al' g' t' ch' →
+    gp = gp' ∧ st = st' ∧ al = al' ∧ g = g' ∧ t = t' ∧ ch = ch'
+  tree_nodash : ∀ gp st al g t ch, '-' ∉ S.treeIdent gp st al g t ch
   parser_inj : ∀ gp st al g gp' st' al' g', S.parserIdent gp st al g = S.parserIdent gp' st' al' g' → gp = gp' ∧ st = st' ∧ al = al' ∧ g = g'
   parser_nodash : ∀ gp st al g, '-' ∉ S.parserIdent gp st al g
   hash_inj : ∀ a b, S.hash a = S.hash b → a = b
@@ -265,27 +265,27 @@ structure TInv (S : Sem) (w : World) : Prop where
   keys : ∀ k f, w.srcs.get? k = some f → KeyOK k
   fresh : ∀ k f, w.srcs.get? k = some f → f.mtime < w.clock
   gfresh : w.grammarMtime < w.clock
-  tree : ∀ k gp st al g t f, KeyOK k → w.cache.get? (treePath S k gp st al g t) = some f →
+  tree : ∀ k gp st al g t ch f, KeyOK k → w.cache.get? (treePath S k gp st al g t ch) = some f →
     t < w.clock ∧ g < w.clock ∧ ∃ full, f.data <+: full ∧ S.valid full = true ∧
       (∀ sf, w.srcs.get? k = some sf → sf.mtime = t → full = S.parse (S.parserBlob gp st al g) sf.data)
   /-- parser-cache coherence: the file named by (grammar path, start, algorithm, grammar mtime) holds (a prefix of) the
       pickle of the parser built from exactly those -/
   parser : ∀ gp st al g f, w.cache.get? (parserPath S gp st al g) = some f → f.data <+: S.parserBlob gp st al g
 
-theorem treePath_inj {S : Sem} (H : Hyp S) {k k' gp st al gp' st' al' : Str} {g t g' t' : Nat}
-    (h : treePath S k gp st al g t = treePath S k' gp' st' al' g' t') :
-    k = k' ∧ gp = gp' ∧ st = st' ∧ al = al' ∧ g = g' ∧ t = t' := by
-  obtain ⟨h1, h2⟩ := cachePath_inj (H.tree_nodash gp st al g t) (H.tree_nodash gp' st' al' g' t') jsonExt_nodash h
-  exact ⟨h1, H.tree_inj _ _ _ _ _ _ _ _ _ _ h2⟩
+theorem treePath_inj {S : Sem} (H : Hyp S) {k k' gp st al gp' st' al' ch ch' : Str} {g t g' t' : Nat}
+    (h : treePath S k gp st al g t ch = treePath S k' gp' st' al' g' t' ch') :
+    k = k' ∧ gp = gp' ∧ st = st' ∧ al = al' ∧ g = g' ∧ t = t' ∧ ch = ch' := by
+  obtain ⟨h1, h2⟩ := cachePath_inj (H.tree_nodash gp st al g t ch) (H.tree_nodash gp' st' al' g' t' ch') jsonExt_nodash h
+  exact ⟨h1, H.tree_inj _ _ _ _ _ _ _ _ _ _ _ _ h2⟩
 
-theorem treePath_ne_symPath {S : Sem} (H : Hyp S) {k k' tp ts ta : Str} {i : List Str} {g t : Nat} (hk : KeyOK k) :
-    treePath S k tp ts ta g t ≠ symPath k' (S.identL i) :=
-  cachePath_ne_symPath hk.1 (H.tree_nodash tp ts ta g t) (H.identL_nodash i) jsonExt_nodash
+theorem treePath_ne_symPath {S : Sem} (H : Hyp S) {k k' tp ts ta ch : Str} {i : List Str} {g t : Nat} (hk : KeyOK k) :
+    treePath S k tp ts ta g t ch ≠ symPath k' (S.identL i) :=
+  cachePath_ne_symPath hk.1 (H.tree_nodash tp ts ta g t ch) (H.identL_nodash i) jsonExt_nodash
 
-theorem treePath_ne_parserPath {S : Sem} (H : Hyp S) {k tp ts ta gp st al : Str} {g t g' : Nat} (hk : KeyOK k) :
-    treePath S k tp ts ta g t ≠ parserPath S gp st al g' := by
+theorem treePath_ne_parserPath {S : Sem} (H : Hyp S) {k tp ts ta gp st al ch : Str} {g t g' : Nat} (hk : KeyOK k) :
+    treePath S k tp ts ta g t ch ≠ parserPath S gp st al g' := by
   intro h
-  have := dash_split (nodash_append (H.tree_nodash tp ts ta g t) jsonExt_nodash) (nodash_append (H.parser_nodash gp st al g') binExt_nodash) h
+  have := dash_split (nodash_append (H.tree_nodash tp ts ta g t ch) jsonExt_nodash) (nodash_append (H.parser_nodash gp st al g') binExt_nodash) h
   exact hk.2 this.1
 
 theorem parserPath_inj {S : Sem} (H : Hyp S) {gp st al gp' st' al' : Str} {g g' : Nat}
@@ -300,11 +300,11 @@ theorem parserPath_ne_symPath {S : Sem} (H : Hyp S) {gp st al k ident : Str} {g 
 
 theorem TInv.erase {S : Sem} {w : World} (h : TInv S w) (p : Str) : TInv S { w with cache := w.cache.erase p } := by
   refine ⟨h.keys, h.fresh, h.gfresh, ?_, ?_⟩
-  · intro k tp ts ta g t f hk hget
+  · intro k tp ts ta g t ch f hk hget
     simp only [Dir.get?_erase] at hget
     split at hget
     · simp at hget
-    · exact h.tree k tp ts ta g t f hk hget
+    · exact h.tree k tp ts ta g t ch f hk hget
   · intro gp st al g f hget
     simp only [Dir.get?_erase] at hget
     split at hget
@@ -318,13 +318,13 @@ theorem TInv.eraseAll {S : Sem} {w : World} (h : TInv S w) (ps : List Str) : TIn
 
 /-- writing a file whose name is neither the tree file of a module key nor a parser file -/
 theorem TInv.put_other {S : Sem} {w : World} (h : TInv S w) (p : Str) (f : File)
-    (hp : ∀ k tp ts ta g t, KeyOK k → treePath S k tp ts ta g t ≠ p) (hq : ∀ gp st al g, parserPath S gp st al g ≠ p) :
+    (hp : ∀ k tp ts ta g t ch, KeyOK k → treePath S k tp ts ta g t ch ≠ p) (hq : ∀ gp st al g, parserPath S gp st al g ≠ p) :
     TInv S { w with cache := w.cache.put p f, clock := w.clock + 1 } := by
   refine ⟨h.keys, fun k f hf => Nat.lt_succ_of_lt (h.fresh k f hf), Nat.lt_succ_of_lt h.gfresh, ?_, ?_⟩
-  · intro k tp ts ta g t f' hk hget
+  · intro k tp ts ta g t ch f' hk hget
     simp only at hget
-    rw [Dir.get?_put_ne _ _ _ _ (hp k tp ts ta g t hk)] at hget
-    obtain ⟨h1, h2, h3⟩ := h.tree k tp ts ta g t f' hk hget
+    rw [Dir.get?_put_ne _ _ _ _ (hp k tp ts ta g t ch hk)] at hget
+    obtain ⟨h1, h2, h3⟩ := h.tree k tp ts ta g t ch f' hk hget
     exact ⟨Nat.lt_succ_of_lt h1, Nat.lt_succ_of_lt h2, h3⟩
   · intro gp st al g f' hget
     simp only at hget
@@ -335,10 +335,10 @@ theorem TInv.put_other {S : Sem} {w : World} (h : TInv S w) (p : Str) (f : File)
 theorem TInv.put_parser {S : Sem} (H : Hyp S) {w : World} (h : TInv S w) (gp st al : Str) (g m : Nat) :
     TInv S { w with cache := w.cache.put (parserPath S gp st al g) ⟨S.parserBlob gp st al g, m⟩, clock := w.clock + 1 } := by
   refine ⟨h.keys, fun k f hf => Nat.lt_succ_of_lt (h.fresh k f hf), Nat.lt_succ_of_lt h.gfresh, ?_, ?_⟩
-  · intro k tp ts ta g' t f' hk hget
+  · intro k tp ts ta g' t ch f' hk hget
     simp only at hget
     rw [Dir.get?_put_ne _ _ _ _ (treePath_ne_parserPath H hk)] at hget
-    obtain ⟨h1, h2, h3⟩ := h.tree k tp ts ta g' t f' hk hget
+    obtain ⟨h1, h2, h3⟩ := h.tree k tp ts ta g' t ch f' hk hget
     exact ⟨Nat.lt_succ_of_lt h1, Nat.lt_succ_of_lt h2, h3⟩
   · intro gp' st' al' g' f' hget
     simp only at hget
@@ -351,13 +351,13 @@ theorem TInv.put_parser {S : Sem} (H : Hyp S) {w : World} (h : TInv S w) (gp st 
 
 /-- writing the tree file of a module from a fresh parse of its current source -/
 theorem TInv.put_tree {S : Sem} (H : Hyp S) {w : World} (h : TInv S w) (k : Str) (sf : File) (hsf : w.srcs.get? k = some sf) (m : Nat) :
-    TInv S { w with cache := w.cache.put (treePath S k w.grammar w.start w.algo w.grammarMtime sf.mtime) ⟨S.parse (w.parserNow S) sf.data, m⟩, clock := w.clock + 1 } := by
+    TInv S { w with cache := w.cache.put (treePath S k w.grammar w.start w.algo w.grammarMtime sf.mtime (treeHashArg S sf.data)) ⟨S.parse (w.parserNow S) sf.data, m⟩, clock := w.clock + 1 } := by
   have hk0 : KeyOK k := h.keys k sf hsf
   refine ⟨h.keys, fun k f hf => Nat.lt_succ_of_lt (h.fresh k f hf), Nat.lt_succ_of_lt h.gfresh, ?_, ?_⟩
-  · intro k' tp ts ta g t f' hk hget
+  · intro k' tp ts ta g t ch f' hk hget
     simp only at hget
-    by_cases hp : treePath S k' tp ts ta g t = treePath S k w.grammar w.start w.algo w.grammarMtime sf.mtime
-    · obtain ⟨rfl, rfl, rfl, rfl, rfl, rfl⟩ := treePath_inj H hp
+    by_cases hp : treePath S k' tp ts ta g t ch = treePath S k w.grammar w.start w.algo w.grammarMtime sf.mtime (treeHashArg S sf.data)
+    · obtain ⟨rfl, rfl, rfl, rfl, rfl, rfl, rfl⟩ := treePath_inj H hp
       rw [Dir.get?_put_eq] at hget
       cases hget
       refine ⟨Nat.lt_succ_of_lt (h.fresh _ _ hsf), Nat.lt_succ_of_lt h.gfresh, S.parse (w.parserNow S) sf.data, List.prefix_refl _, H.valid_parse _ _, ?_⟩
@@ -365,7 +365,7 @@ theorem TInv.put_tree {S : Sem} (H : Hyp S) {w : World} (h : TInv S w) (k : Str)
       simp only at hsf'
       rw [hsf] at hsf'; cases hsf'; rfl
     · rw [Dir.get?_put_ne _ _ _ _ hp] at hget
-      obtain ⟨h1, h2, h3⟩ := h.tree k' tp ts ta g t f' hk hget
+      obtain ⟨h1, h2, h3⟩ := h.tree k' tp ts ta g t ch f' hk hget
       exact ⟨Nat.lt_succ_of_lt h1, Nat.lt_succ_of_lt h2, h3⟩
   · intro gp st al g f' hget
     simp only at hget
@@ -386,8 +386,8 @@ theorem TInv.edit {S : Sem} {w : World} (h : TInv S w) (k src : Str) (hk : KeyOK
     by_cases hkk : k' = k
     · subst hkk; rw [Dir.get?_put_eq] at hf; cases hf; simp
     · rw [Dir.get?_put_ne _ _ _ _ hkk] at hf; exact Nat.lt_succ_of_lt (h.fresh k' f hf)
-  · intro k' tp ts ta g t f hk' hget
-    obtain ⟨h1, h1', full, h2, h3, h4⟩ := h.tree k' tp ts ta g t f hk' hget
+  · intro k' tp ts ta g t ch f hk' hget
+    obtain ⟨h1, h1', full, h2, h3, h4⟩ := h.tree k' tp ts ta g t ch f hk' hget
     refine ⟨Nat.lt_succ_of_lt h1, Nat.lt_succ_of_lt h1', full, h2, h3, ?_⟩
     intro sf hsf hmt
     simp only at hsf
@@ -400,8 +400,8 @@ theorem TInv.edit {S : Sem} {w : World} (h : TInv S w) (k src : Str) (hk : KeyOK
 theorem TInv.grammar {S : Sem} {w : World} (h : TInv S w) (path : Str) :
     TInv S { w with grammar := path, grammarMtime := w.clock, clock := w.clock + 1 } := by
   refine ⟨h.keys, fun k f hf => Nat.lt_succ_of_lt (h.fresh k f hf), Nat.lt_succ_self _, ?_, h.parser⟩
-  intro k tp ts ta g t f hk hget
-  obtain ⟨h1, h1', full, h2, h3, h4⟩ := h.tree k tp ts ta g t f hk hget
+  intro k tp ts ta g t ch f hk hget
+  obtain ⟨h1, h1', full, h2, h3, h4⟩ := h.tree k tp ts ta g t ch f hk hget
   exact ⟨Nat.lt_succ_of_lt h1, Nat.lt_succ_of_lt h1', full, h2, h3, h4⟩
 
 /-- `ParserSetting` is changed (grammar path / start / algorithm; mtimes untouched): the files keep what their names say -/
@@ -413,15 +413,15 @@ theorem TInv.setting {S : Sem} {w : World} (h : TInv S w) (path st al : Str) :
 theorem TInv.trunc {S : Sem} {w : World} (h : TInv S w) (p : Str) (f : File) (hf : w.cache.get? p = some f) (k : Nat) :
     TInv S { w with cache := w.cache.put p (truncFile f k) } := by
   refine ⟨h.keys, h.fresh, h.gfresh, ?_, ?_⟩
-  · intro k' tp ts ta g t f' hk hget
+  · intro k' tp ts ta g t ch f' hk hget
     simp only at hget
-    by_cases hp : treePath S k' tp ts ta g t = p
+    by_cases hp : treePath S k' tp ts ta g t ch = p
     · subst hp
       rw [Dir.get?_put_eq] at hget; cases hget
-      obtain ⟨h1, h1', full, h2, h3⟩ := h.tree k' tp ts ta g t f hk hf
+      obtain ⟨h1, h1', full, h2, h3⟩ := h.tree k' tp ts ta g t ch f hk hf
       exact ⟨h1, h1', full, List.IsPrefix.trans (List.take_prefix _ _) h2, h3⟩
     · rw [Dir.get?_put_ne _ _ _ _ hp] at hget
-      exact h.tree k' tp ts ta g t f' hk hget
+      exact h.tree k' tp ts ta g t ch f' hk hget
   · intro gp st al g f' hget
     simp only at hget
     by_cases hp : parserPath S gp st al g = p
@@ -597,12 +597,12 @@ theorem treeGet_TS {S : Sem} (H : Hyp S) {w0 : World} {s : Sess} (h : TS S w0 s)
     · rename_i src hsrc
       have hsrc0 : w0.srcs.get? key = some src := by rw [← h1.srcs]; exact hsrc
       have hk : KeyOK key := h1.inv.keys key src hsrc
-      have h2 := cacheGet_TS (S := S) h1 (dirname key) key (S.treeIdent s1.w.grammar s1.w.start s1.w.algo s1.w.grammarMtime src.mtime) jsonExt (S.parse (w0.parserNow S) src.data) false
+      have h2 := cacheGet_TS (S := S) h1 (dirname key) key (S.treeIdent s1.w.grammar s1.w.start s1.w.algo s1.w.grammarMtime src.mtime (treeHashArg S src.data)) jsonExt (S.parse (w0.parserNow S) src.data) false
         (fun w m hw hc => by
           have := hw.put_tree H key src (by rw [hc.1]; exact hsrc0) m
           have e1 : w.parserNow S = w0.parserNow S := by
             unfold World.parserNow; rw [hc.2.2.1, hc.2.2.2.1, hc.2.2.2.2, hc.2.1]
-          have e : treePath S key w.grammar w.start w.algo w.grammarMtime src.mtime = cachePath key (S.treeIdent s1.w.grammar s1.w.start s1.w.algo s1.w.grammarMtime src.mtime) jsonExt := by
+          have e : treePath S key w.grammar w.start w.algo w.grammarMtime src.mtime (treeHashArg S src.data) = cachePath key (S.treeIdent s1.w.grammar s1.w.start s1.w.algo s1.w.grammarMtime src.mtime (treeHashArg S src.data)) jsonExt := by
             rw [hc.2.1, hc.2.2.1, hc.2.2.2.1, hc.2.2.2.2, ← h1.gm, ← h1.cfg.1, ← h1.cfg.2.1, ← h1.cfg.2.2]; rfl
           rw [e, e1] at this
           exact this)
@@ -611,11 +611,11 @@ theorem treeGet_TS {S : Sem} (H : Hyp S) {w0 : World} {s : Sess} (h : TS S w0 s)
       intro tree hr
       have hF : FreshTree S w0 key tree := by
         refine ⟨src, hsrc0, ?_⟩
-        have hv : (cacheGet S s1 (dirname key) key (S.treeIdent s1.w.grammar s1.w.start s1.w.algo s1.w.grammarMtime src.mtime) jsonExt (S.parse (w0.parserNow S) src.data) false).2 = some tree := by
+        have hv : (cacheGet S s1 (dirname key) key (S.treeIdent s1.w.grammar s1.w.start s1.w.algo s1.w.grammarMtime src.mtime (treeHashArg S src.data)) jsonExt (S.parse (w0.parserNow S) src.data) false).2 = some tree := by
           rw [heq]; exact hr
         rcases cacheGet_value hv with rfl | ⟨f, hf, hvalid, rfl⟩
         · rfl
-        · obtain ⟨_, _, full, hp, hfv, hfull⟩ := h1.inv.tree key _ _ _ _ _ f hk hf
+        · obtain ⟨_, _, full, hp, hfv, hfull⟩ := h1.inv.tree key _ _ _ _ _ _ f hk hf
           rw [prefix_valid_eq H hp hfv hvalid, hfull src hsrc rfl, ← h1.parserNow_eq]; rfl
       exact ⟨hF, h2.addTree hF⟩
 
@@ -673,7 +673,7 @@ theorem preprocessWith_TS {S : Sem} (H : Hyp S) {w0 : World} {s : Sess} (h : TS 
     · cases heq
       apply aux
       exact TS.write (TS.evict h _) _ _ _ (fun w m hw _ => hw.put_other _ _
-        (fun k tp ts ta g t hk => cachePath_ne_symPath hk.1 (H.tree_nodash tp ts ta g t) hident jsonExt_nodash)
+        (fun k tp ts ta g t ch hk => cachePath_ne_symPath hk.1 (H.tree_nodash tp ts ta g t ch) hident jsonExt_nodash)
         (fun gp st al g => parserPath_ne_symPath H hident))
 
 theorem preprocess_TS {S : Sem} (H : Hyp S) {w0 : World} {s : Sess} (h : TS S w0 s) (key tree : Str) (views : List Str)
@@ -739,7 +739,7 @@ theorem step_TInv {S : Sem} (H : Hyp S) (w : World) (op : Op) (hop : OpOK op) (h
   cases op with
   | edit k src => exact h.edit k src hop
   | run force => exact (run_TS H w force h).inv
-  | clear => exact ⟨h.keys, h.fresh, h.gfresh, fun k tp ts ta g t f _ hget => by simp [step, World.clearCache, Dir.get?] at hget,
+  | clear => exact ⟨h.keys, h.fresh, h.gfresh, fun k tp ts ta g t ch f _ hget => by simp [step, World.clearCache, Dir.get?] at hget,
       fun gp st al g f hget => by simp [step, World.clearCache, Dir.get?] at hget⟩
   | delete p => exact h.erase p
   | trunc p k =>
@@ -762,7 +762,7 @@ theorem TInv.init {S : Sem} (w : World) (hc : w.cache = []) (hs : w.srcs = []) (
   refine ⟨?_, ?_, hg, ?_, ?_⟩
   · intro k f hf; simp [hs, Dir.get?] at hf
   · intro k f hf; simp [hs, Dir.get?] at hf
-  · intro k tp ts ta g t f _ hf; simp [hc, Dir.get?] at hf
+  · intro k tp ts ta g t ch f _ hf; simp [hc, Dir.get?] at hf
   · intro gp st al g f hf; simp [hc, Dir.get?] at hf
 
 theorem exec_append (S : Sem) (w : World) (a b : List Op) : exec S w (a ++ b) = exec S (exec S w a) b := by
@@ -1080,11 +1080,11 @@ theorem treeGet_sym {S : Sem} (H : Hyp S) {pz0 : Str} {s : Sess} (key : Str) (hk
     · exact ⟨hdb, hcyc, hids, hsinv, htr, hlo, hdp⟩
     · rename_i src hsrc
       have hkey : KeyOK key := hk src (by rw [← hsrcs]; exact hsrc)
-      have hr := cacheGet_rest (S := S) (s := s1) (dir := dirname key) (key := key) (ident := S.treeIdent s1.w.grammar s1.w.start s1.w.algo s1.w.grammarMtime src.mtime)
+      have hr := cacheGet_rest (S := S) (s := s1) (dir := dirname key) (key := key) (ident := S.treeIdent s1.w.grammar s1.w.start s1.w.algo s1.w.grammarMtime src.mtime (treeHashArg S src.data))
         (ext := jsonExt) (fresh := S.parse pz src.data) (bin := false)
       refine ⟨by rw [hr.1, hdb], by rw [hr.2.1, hcyc], by rw [hr.2.2.1, hids],
         fun h => cacheGet_SInv (hsinv h) _ _ _ _ _ _ ?_, by rw [hr.2.2.2.2.1, htr], by rw [hr.2.2.2.2.2.2.1, hlo], by rw [hr.2.2.2.2.2.2.2.2, hdp]⟩
-      exact fun w m c hw => hw.put_other _ _ _ (fun k ident hi => symPath_ne_cachePath hi (H.tree_nodash _ _ _ _ _) jsonExt_nodash hkey.1)
+      exact fun w m c hw => hw.put_other _ _ _ (fun k ident hi => symPath_ne_cachePath hi (H.tree_nodash _ _ _ _ _ _) jsonExt_nodash hkey.1)
 
 end Tranp.CacheFS
 
@@ -1176,7 +1176,7 @@ theorem treeGet_rest {S : Sem} (H : Hyp S) (s : Sess) (key : Str) :
     split
     · exact ⟨h1, h2, h3, h5, h6, h7, h4, h8⟩
     · rename_i src _
-      have hr := cacheGet_rest (S := S) (s := s1) (dir := dirname key) (key := key) (ident := S.treeIdent s1.w.grammar s1.w.start s1.w.algo s1.w.grammarMtime src.mtime)
+      have hr := cacheGet_rest (S := S) (s := s1) (dir := dirname key) (key := key) (ident := S.treeIdent s1.w.grammar s1.w.start s1.w.algo s1.w.grammarMtime src.mtime (treeHashArg S src.data))
         (ext := jsonExt) (fresh := S.parse pz src.data) (bin := false)
       exact ⟨by rw [hr.1, h1], by rw [hr.2.1, h2], by rw [hr.2.2.1, h3], by rw [hr.2.2.2.2.1, h5], by rw [hr.2.2.2.2.2.2.1, h6],
         by rw [hr.2.2.2.2.2.2.2.1, h7], by rw [hr.2.2.2.1, h4], by rw [hr.2.2.2.2.2.2.2.2, h8]⟩
